@@ -158,6 +158,11 @@ var c07Nss = []string{"", "", "default", "x", "y", "x"}
 type c07gen struct {
 	rng  *Rng
 	ntag int
+	// odd: this sequence may contain resources without a name or a kind (which the loader rejects, List kinds
+	// excepted). The model does not distinguish a missing metadata.name from `name: ""`, which the name
+	// transformers, CopyMergeMetaDataFieldsFrom and ApplySmPatch do; odd sequences therefore use only the
+	// operations that do not write names.
+	odd bool
 }
 
 func (g *c07gen) tag() string {
@@ -171,10 +176,10 @@ func (g *c07gen) spec() rspec {
 	if g.rng.Chance(3) {
 		s.Name = "a,b" // CSV-breaking name: StorePreviousId then yields unequal list lengths (panic in PrevIds)
 	}
-	if g.rng.Chance(2) {
+	if g.odd && g.rng.Chance(12) {
 		s.Name = ""
 	}
-	if g.rng.Chance(2) {
+	if g.odd && g.rng.Chance(8) {
 		s.Kind = ""
 	}
 	if g.rng.Chance(2) {
@@ -219,10 +224,12 @@ func (g *c07gen) absorbSpec(cur []*resource.Resource) rspec {
 	if s.Name == "" {
 		s.Name = "a"
 	}
+	aimed := false
 	if len(cur) > 0 && g.rng.Chance(65) {
 		t := cur[g.rng.Intn(len(cur))]
-		if !t.IsNilOrEmpty() {
+		if !t.IsNilOrEmpty() && t.GetName() != "" {
 			id := t.CurId()
+			aimed = true
 			s.APIVersion, s.Kind, s.Name, s.Ns = id.ApiVersion(), id.Kind, id.Name, id.Namespace
 			if g.rng.Chance(30) {
 				// aim at a previous name instead
@@ -236,12 +243,16 @@ func (g *c07gen) absorbSpec(cur []*resource.Resource) rspec {
 		s.Ann = map[string]string{}
 	}
 	delete(s.Ann, c07Origin)
-	switch g.rng.Intn(6) {
-	case 0, 1:
+	k := g.rng.Intn(10)
+	if !aimed {
+		k = []int{8, 8, 8, 9, 9, 9, 9, 0, 2, 8}[k] // mostly create / unspecified when nothing is aimed at
+	}
+	switch {
+	case k < 4:
 		s.Ann[c07Behavior] = "merge"
-	case 2, 3:
+	case k < 8:
 		s.Ann[c07Behavior] = "replace"
-	case 4:
+	case k < 9:
 		s.Ann[c07Behavior] = g.rng.Pick([]string{"create", "unspecified", "bogus"})
 	}
 	return s
@@ -633,7 +644,12 @@ func (g *c07gen) genOp(m resmap.ResMap) opspec {
 		}
 		return cur[g.rng.Intn(len(cur))]
 	}
-	switch k := g.rng.Intn(100); {
+	k := g.rng.Intn(100)
+	if g.odd {
+		// operations that never write metadata.name
+		k = []int{0, 10, 17, 24, 45, 49, 63, 75, 93, 97, 0, 24, 93, 75}[g.rng.Intn(14)]
+	}
+	switch {
 	case k < 10:
 		return opspec{Op: "append", Res: []rspec{g.spec()}}
 	case k < 17:
@@ -1053,6 +1069,7 @@ func runC07(r *Run, rng *Rng, tier string) error {
 	r.AddCase(fmt.Sprintf("(CTable %s)", coqStrList(resource.BuildAnnotations)), map[string]interface{}{"table": "resource.BuildAnnotations"}, true)
 	for i := 0; i < nSeq; i++ {
 		g := &c07gen{rng: rng.Fork()}
+		g.odd = g.rng.Chance(12)
 		sq := seq07{}
 		runSeq07(r, g, &sq, 3+g.rng.Intn(6), true)
 	}
@@ -1061,6 +1078,7 @@ func runC07(r *Run, rng *Rng, tier string) error {
 	}
 	for i := 0; i < nLawSeq; i++ {
 		g := &c07gen{rng: rng.Fork()}
+		g.odd = g.rng.Chance(12)
 		sq := seq07{}
 		runSeq07(r, g, &sq, 3+g.rng.Intn(8), false)
 	}
